@@ -60,6 +60,15 @@ CHECKS = {
             "by TraceTcr.tla with V distances and CDR3 distances supplied independently by the harness.",
             "Trusted: TLC; the vendored pwseqdist stand-in (harness/standins) replaces the absent optional dependency.",
             "TLA+ model checking (TLC) + spec-to-code replay + trace validation"),
+    "C11": ("DESIGN.md 4/C11",
+            "KdPool.tla models _to_triplets (SetParams, Fork with per-worker copy of the parameter block, Take, Finish, Assemble, "
+            "SerialMap, Close; two consecutive calls); TLC explores every interleaving for <=5 tasks x <=4 workers (ResultIsSerial, "
+            "AllResultsSerial, NoStaleParams, NoError, ChunksPartition, SlotsOnce) and rejects three deviations (chunk size 0, fork before "
+            "SetParams, unordered assembly). Every complete schedule emitted by TLC is executed on the real kdtree through SpecDrivenPool; "
+            "a sweep over n x n_cpu (incl. n_cpu > n) x compression x mode compares with the serial uncompressed run; real multiprocessing "
+            "runs are recorded per process and validated by TraceKdPool.tla; max_returns sessions are judged by TraceNN.tla (JoinLimited).",
+            "Trusted: TLC; SpecDrivenPool's model of multiprocessing.Pool (fork-time snapshot, map in chunk order). Real pools only for a handful of configurations (fork cost).",
+            "TLA+ model checking of all pool schedules (TLC) + schedule replay through the real code + trace validation of real multi-process runs"),
 }
 
 NOT_YET = {
